@@ -309,9 +309,8 @@ def GArg.adds : GArg → List Quad
   | .foreign k ts => ts.map (fun t => (t, k))
   | _ => []
 
-/-- the argument is a `Graph` object (→ `get_graph` is consulted) -/
+/-- the argument is a `Graph` object of another store (→ `get_graph` is consulted) -/
 def GArg.isObj : GArg → Bool
-  | .view _ => true
   | .foreign _ _ => true
   | _ => false
 
@@ -319,7 +318,7 @@ theorem WF.graphEff {m : Mem} (h : WF m) (cfg : Cfg) (g : GArg) : WF (graphEff c
   cases g with
   | none => exact h
   | ident k => exact h
-  | view k => exact (h.touch cfg).addAll _ _
+  | view k => exact h
   | foreign k ts => exact (h.touch cfg).addAll _ _
 
 theorem mem_graphEff_qs {cfg : Cfg} {m : Mem} {g : GArg} {q : Quad} :
@@ -328,15 +327,7 @@ theorem mem_graphEff_qs {cfg : Cfg} {m : Mem} {g : GArg} {q : Quad} :
   cases g with
   | none => simp [graphEff, GArg.adds]
   | ident k => simp [graphEff, GArg.adds]
-  | view k =>
-    simp only [graphEff, mem_addAll_qs, touch_qs, GArg.adds, List.not_mem_nil, or_false]
-    constructor
-    · rintro (e | ⟨e1, e2⟩)
-      · exact e
-      · obtain ⟨_, c, h1, h2⟩ := mem_selTriples.mp e2
-        rw [ctxOk_some.mp h2] at h1
-        rw [e1]; exact h1
-    · exact Or.inl
+  | view k => simp [graphEff, GArg.adds]
   | foreign k ts =>
     simp only [graphEff, mem_addAll_qs, touch_qs, GArg.adds, List.mem_map, Prod.mk.injEq]
     constructor
@@ -347,24 +338,13 @@ theorem mem_graphEff_qs {cfg : Cfg} {m : Mem} {g : GArg} {q : Quad} :
       · exact Or.inl e
       · subst e2; exact Or.inr ⟨e3.symm, e1⟩
 
-theorem mem_graphEff_allc {cfg : Cfg} {m : Mem} (h : WF m) {g : GArg} {c : Key} :
+theorem mem_graphEff_allc {cfg : Cfg} {m : Mem} {g : GArg} {c : Key} :
     c ∈ (graphEff cfg m g).allc ↔
       c ∈ m.allc ∨ (g.isObj = true ∧ cfg.isDs = true ∧ c = cfg.dflt) ∨ (∃ t, (t, c) ∈ g.adds) := by
   cases g with
   | none => simp [graphEff, GArg.adds, GArg.isObj]
   | ident k => simp [graphEff, GArg.adds, GArg.isObj]
-  | view k =>
-    simp only [graphEff, mem_addAll_allc, mem_touch_allc, touch_qs, GArg.adds, GArg.isObj,
-      List.not_mem_nil, exists_false, or_false, true_and]
-    constructor
-    · rintro (e | ⟨e1, e2⟩)
-      · exact e
-      · obtain ⟨t, ht⟩ := List.exists_mem_of_ne_nil _ e2
-        obtain ⟨_, c', h1, h2⟩ := mem_selTriples.mp ht
-        rw [ctxOk_some.mp h2] at h1
-        subst e1
-        exact Or.inl (h.reg _ h1)
-    · exact Or.inl
+  | view k => simp [graphEff, GArg.adds, GArg.isObj]
   | foreign k ts =>
     simp only [graphEff, mem_addAll_allc, mem_touch_allc, GArg.adds, GArg.isObj, List.mem_map,
       Prod.mk.injEq, true_and]
